@@ -6,6 +6,7 @@ import (
 	"go/types"
 	"sort"
 	"strings"
+	"verif/internal/lockset"
 
 	"golang.org/x/tools/go/ssa"
 
@@ -290,6 +291,52 @@ func c26(c *core.Ctx) {
 	c.Rule("C26.acks", "Client.pendingAcks is read and written only with subMux held (written only with the write lock), and only by handleAcks, handleNotification, sendPublishRequest, publish and the constructor; an acknowledgement is appended only on the data-notification path", 6)
 
 	c26Items(c)
+	// a successful PublishResponse answers the acknowledgements of its request, whichever subscription it is for
+	c.Rule("C26.settle", "in Client.publish every path from taking subMux for a successful PublishResponse to a return passes handleAcks (the results answer the request's acknowledgements even when the response is for a subscription the client has just forgotten): unsettled acknowledgements are sent again and a notification is acknowledged twice", 1)
+	if pub := fn(c, "opcua", "Client", "publish"); pub != nil {
+		hA := obj(c, "opcua", "Client", "handleAcks_NeedsSubMuxLock")
+		isAcks := func(in ssa.Instruction) bool {
+			call, ok := in.(ssa.CallInstruction)
+			return ok && hA != nil && ssax.Callee(call) == hA
+		}
+		// the success arm may have been moved into a private helper: decide where the write lock is taken
+		scope := pub
+		for _, g := range withHelpers(pub) {
+			for _, call := range ssax.Calls(g) {
+				if op, ok := lockset.LockOp(call); ok && op.Acquire && !op.Read && op.Mutex == "opcua.Client.subMux" {
+					scope = g
+				}
+			}
+		}
+		pubOuter := pub
+		pub = scope
+		_ = pubOuter
+		ackSites := liftedSites(pub, isAcks)
+		isAckL := func(in ssa.Instruction) bool {
+			for _, a := range ackSites {
+				if a == in {
+					return true
+				}
+			}
+			return false
+		}
+		n := 0
+		for _, call := range ssax.Calls(pub) {
+			op, ok := lockset.LockOp(call)
+			if !ok || !op.Acquire || op.Read || op.Mutex != "opcua.Client.subMux" {
+				continue
+			}
+			if _, isDefer := call.(*ssa.Defer); isDefer {
+				continue
+			}
+			n++
+			miss, tr := ssax.Reach(pub, call, func(in ssa.Instruction) bool { _, r := in.(*ssa.Return); return r }, isAckL, nil)
+			c.Ob("C26.settle", fname(pubOuter)+"·handleAcks on every path of the success arm", pos(c, call), !miss && len(ackSites) > 0, "a path from subMux.Lock to a return skips handleAcks: "+boolStr(miss), trace(c, tr)...)
+		}
+		if n == 0 {
+			c.Ob("C26.settle", fname(pubOuter)+"·handleAcks on every path of the success arm", c.P.Pos(pub.Pos()), false, "publish no longer takes subMux for a successful response")
+		}
+	}
 	pk := c.P.Lib["opcua"]
 	var mon *ast.FuncDecl
 	for _, file := range pk.Syntax {
@@ -668,6 +715,8 @@ func c27(c *core.Ctx) {
 	if nHeld == 0 {
 		c.Ob("C27.heldsend", "opcua·no blocking send under subMux", c.P.Pos(monSubs.Pos()), true, "no send site holds subMux")
 	}
+	c.Rule("C27.balance", "every function of packages opcua and monitor unlocks each mutex it locks on every path to a return (or defers the unlock): no path leaves subMux (or any other client mutex) locked behind", 10)
+	lockBalance(c, "C27.balance", "opcua", "monitor")
 	lockOrderRules(c, "C27.lockorder", "C27.lockorder", "client", []string{"opcua", "monitor", "uasc"}, "two goroutines of the client can deadlock", "recursive RLock with a writer in between blocks both")
 }
 
